@@ -91,7 +91,7 @@ package diam
 //@   ensures [C02] vendor: err == nil && a.Flags & 0x80 == 0x80 ==> a.VendorID == be32(data, 8)
 //@   ensures data_ok: err == nil ==> a.Data != nil && valid(a.Data)
 //@   ensures [C04] cursor: err == nil && !typeis(a.Data, *GroupedAVP) ==> avplen(a) == pad4s(a.Length)
-//@   ensures [C04] payload: err == nil ==> forall i int :: 0 <= i && i < a.Length - hdrlen(a.Flags) ==> dbyte(a.Data, i) == data[hdrlen(a.Flags) + i]
+//@   ensures [C04] payload: err == nil && !typeis(a.Data, *GroupedAVP) ==> forall i int :: 0 <= i && i < a.Length - hdrlen(a.Flags) ==> dbyte(a.Data, i) == data[hdrlen(a.Flags) + i]
 //@ end
 //@
 //@ func DecodeAVP(data, application, dictionary) (a, err)
@@ -105,7 +105,7 @@ package diam
 //@   ensures [C02] vendor: err == nil && a.Flags & 0x80 == 0x80 ==> a.VendorID == be32(data, 8)
 //@   ensures data_ok: err == nil ==> a.Data != nil && valid(a.Data)
 //@   ensures [C04] cursor: err == nil && !typeis(a.Data, *GroupedAVP) ==> avplen(a) == pad4s(a.Length)
-//@   ensures [C04] payload: err == nil ==> forall i int :: 0 <= i && i < a.Length - hdrlen(a.Flags) ==> dbyte(a.Data, i) == data[hdrlen(a.Flags) + i]
+//@   ensures [C04] payload: err == nil && !typeis(a.Data, *GroupedAVP) ==> forall i int :: 0 <= i && i < a.Length - hdrlen(a.Flags) ==> dbyte(a.Data, i) == data[hdrlen(a.Flags) + i]
 //@ end
 //@
 //@ # ======================= group.go ========================================
